@@ -316,6 +316,50 @@ func runC13Seq(rc *RunCtx, bottom string) {
 		}
 	}
 
+	// now and then a directory wider than the helpers' default scan page
+	// (logical.DefaultScanViewPageLimit entries): the page boundary of the
+	// production page size is crossed, by leaves and by a folder
+	if st.Storage != nil && !faults && (o.Bottom == "inmem" || o.Bottom == "simdisk" || o.Bottom == "inmem-plain") && tp.Pick(25) == 0 {
+		n := logical.DefaultScanViewPageLimit - 3 + tp.Pick(50)
+		folderAt := logical.DefaultScanViewPageLimit - 2 + tp.Pick(5)
+		for i := 0; i < n; i++ {
+			k := fmt.Sprintf("wide/%05d", i)
+			if i == folderAt {
+				k += "/a/b"
+			}
+			v := []byte("w")
+			if err := st.KV.Put(k, v); err != nil {
+				panic(err)
+			}
+			c.model.Put(k, v)
+		}
+		ks, err := logical.CollectKeys(bg, st.Storage)
+		if err != nil || !eqStrings(sortedCopy(ks), c.model.Keys()) {
+			miss := diffKeys(c.model.Keys(), sortedCopy(ks))
+			c.viol("collectkeys-mismatch", map[string]any{"helper": "CollectKeys", "wide_directory": true}, "CollectKeys over a directory of %d entries returned %d keys (err %v); not visited: %v", n, len(ks), err, tail(miss, 5))
+			return
+		}
+		if cnt, err := logical.CountKeys(bg, st.Storage); err != nil || cnt != len(c.model.Keys()) {
+			c.viol("collectkeys-mismatch", map[string]any{"helper": "CountKeys", "wide_directory": true}, "CountKeys = %d (err %v), the view holds %d keys", cnt, err, len(c.model.Keys()))
+			return
+		}
+		if tp.Pick(2) == 0 {
+			if err := logical.ClearViewWithPagination(bg, st.Storage, log.NewNullLogger()); err != nil {
+				c.viol("clearview-failed", nil, "ClearView over a wide directory: %v", err)
+				return
+			}
+			c.model = NewKV()
+			if left, _ := logical.CollectKeys(bg, st.Storage); len(left) > 0 {
+				c.viol("clearview-left-keys", map[string]any{"wide_directory": true}, "ClearView over a directory of %d entries left %d keys behind: %v", n, len(left), tail(left, 5))
+				return
+			}
+			if raw, _ := (physKV{st.Bottom}).List(st.Prefix + "wide/"); len(raw) > 0 {
+				c.viol("clearview-left-keys", map[string]any{"wide_directory": true}, "ClearView left %d entries under wide/ in the backend", len(raw))
+				return
+			}
+		}
+		s.Probe("wide_directory_checked")
+	}
 	nOps := 40
 	if rc.Thorough() {
 		nOps = 200
@@ -407,6 +451,44 @@ func runC13Seq(rc *RunCtx, bottom string) {
 				return
 			}
 			s.Probe("collect_checked")
+			// the same scan with a caller-chosen page size (directories wider than
+			// a page are walked in several pages), the count and a prefix filter
+			if !c.faulted {
+				ps := []int{1, 2, 3, 5, 7}[tp.Pick(5)]
+				var got []string
+				bs := &budgetStorage{Storage: st.Storage, left: helperOpBudget}
+				err := logical.ScanViewPaginated(bg, bs, log.NewNullLogger(), ps, func(page, index int, path string) (bool, error) {
+					got = append(got, path)
+					return true, nil
+				})
+				if err != nil && bs.exhausted {
+					c.viol("scan-helper-did-not-terminate", map[string]any{"bottom": c.st.Layers[0]}, "ScanViewPaginated(page size %d) over %d keys made more than %d storage calls", ps, len(c.model.M), helperOpBudget)
+					return
+				}
+				if err == nil && !eqStrings(sortedCopy(got), c.model.Keys()) {
+					c.viol("collectkeys-mismatch", map[string]any{"helper": "ScanViewPaginated"}, "ScanViewPaginated(page size %d) visited %v, the view holds %v", ps, sortedCopy(got), c.model.Keys())
+					return
+				}
+				if n, err := logical.CountKeys(bg, st.Storage); err == nil && n != len(c.model.Keys()) {
+					c.viol("collectkeys-mismatch", map[string]any{"helper": "CountKeys"}, "CountKeys = %d, the view holds %d keys", n, len(c.model.Keys()))
+					return
+				}
+				if mk := c.model.Keys(); len(mk) > 0 {
+					pfx := mk[tp.Pick(len(mk))]
+					pfx = pfx[:1+tp.Pick(len(pfx))]
+					var want []string
+					for _, k := range mk {
+						if strings.HasPrefix(k, pfx) {
+							want = append(want, k)
+						}
+					}
+					if got, err := logical.CollectKeysWithPrefix(bg, st.Storage, pfx); err == nil && !eqStrings(sortedCopy(got), want) {
+						c.viol("collectkeys-mismatch", map[string]any{"helper": "CollectKeysWithPrefix"}, "CollectKeysWithPrefix(%q) = %v, want %v", pfx, sortedCopy(got), want)
+						return
+					}
+				}
+				s.Probe("paged_scan_checked")
+			}
 		case r == 3 && st.Storage != nil && tp.Pick(4) == 0:
 			c.desc = append(c.desc, "clearview")
 			var err error
